@@ -547,7 +547,9 @@ func (e *eng) exec(op gop) stepRes {
 	}
 	nm, sc, rl, sv := utils.NodeManagerContractAddress, utils.SideChainManagerContractAddress, utils.RelayerManagerContractAddress, utils.Neo3StateManagerContractAddress
 	peerParam := func() []byte {
-		return sinkBytes(func(s *common.ZeroCopySink) { (&node_manager.PeerParam{PeerPubkey: sr.t.pub, Address: a.Address}).Serialization(s) })
+		return sinkBytes(func(s *common.ZeroCopySink) {
+			(&node_manager.PeerParam{PeerPubkey: sr.t.pub, Address: a.Address}).Serialization(s)
+		})
 	}
 	chainParam := func() []byte {
 		return sinkBytes(func(s *common.ZeroCopySink) {
